@@ -11,8 +11,10 @@ package c02
 
 import (
 	"fmt"
+	"os"
 	"sort"
 	"strings"
+	"time"
 
 	"verif/harness/vf"
 )
@@ -31,25 +33,44 @@ func run(c *vf.Ctx) {
 	c.Assume("a step from a non-nesting into a nesting format auto-unflattens keys containing the flatten separator (documented): such keys are outside the domain of that path")
 	c.Assume("records are non-empty and have distinct keys; values are valid UTF-8")
 
-	res := c.RunPool(vf.PoolSpec{Worker: "convert", Shards: 64})
-	c.Extra["convert_distinct_streams"] = vf.SetSize(res, "streams")
-	nd := int64(vf.SetSize(res, "streams"))
-
-	res2 := c.RunPool(vf.PoolSpec{Worker: "nest", Shards: 64})
-	c.Extra["nest_distinct_documents_in_guard"] = vf.SetSize(res2, "docs")
-	nd += int64(vf.SetSize(res2, "docs"))
-
-	res3 := c.RunPool(vf.PoolSpec{Worker: "flags", Shards: 48})
-	finishFlags(c, res3)
-	nd += int64(vf.SetSize(res3, "spellings"))
+	only := os.Getenv("C02_ONLY") // debugging aid: run one part
+	var nd int64
+	wall := map[string]float64{}
+	if only == "" || only == "convert" {
+		t0 := time.Now()
+		res := c.RunPool(vf.PoolSpec{Worker: "convert", Shards: 64})
+		c.Extra["convert_distinct_streams"] = vf.SetSize(res, "streams")
+		nd += int64(vf.SetSize(res, "streams"))
+		wall["convert"] = time.Since(t0).Seconds()
+	}
+	if only == "" || only == "nest" {
+		t0 := time.Now()
+		res2 := c.RunPool(vf.PoolSpec{Worker: "nest", Shards: 64})
+		c.Extra["nest_cli_distinct_documents_in_guard"] = vf.SetSize(res2, "docs")
+		nd += int64(vf.SetSize(res2, "docs"))
+		nd += c.Counters["lib-docs-in-guard"]
+		wall["nest"] = time.Since(t0).Seconds()
+	}
+	if only == "" || only == "flags" {
+		t0 := time.Now()
+		res3 := c.RunPool(vf.PoolSpec{Worker: "flags", Shards: 48})
+		finishFlags(c, res3)
+		nd += int64(vf.SetSize(res3, "spellings"))
+		wall["flags"] = time.Since(t0).Seconds()
+	}
+	c.Extra["wall_s_per_part"] = wall
+	if only != "" {
+		c.Exhaustive = false
+		c.Extra["inexhaustive"] = []string{"C02_ONLY=" + only + " (debug run of one part)"}
+	}
 
 	c.DistinctNontrivial = nd
-	summarizeCounters(c)
+	summarizeCounters(c, only)
 }
 
 // summarizeCounters folds the per-symbol counters into Extra maps so that the
 // evidence shows hit counts per format pair, value, family, flag section.
-func summarizeCounters(c *vf.Ctx) {
+func summarizeCounters(c *vf.Ctx, only string) {
 	groups := map[string]map[string]int64{}
 	for k, v := range c.Counters {
 		i := strings.Index(k, ":")
@@ -67,6 +88,9 @@ func summarizeCounters(c *vf.Ctx) {
 		for k := range m {
 			delete(c.Counters, g+":"+k)
 		}
+	}
+	if only != "" && only != "convert" {
+		return
 	}
 	// a symbol never exercised is a harness bug
 	var never []string
